@@ -249,15 +249,17 @@ func (b *c16Backend) FullDuplexCall(st grpc_testing.TestService_FullDuplexCallSe
 }
 
 type c16Rig struct {
-	a, b     *c16Backend
-	proxy    *grpc.Server
-	addr     string
-	cc       *grpc.ClientConn
-	client   grpc_testing.TestServiceClient
-	ccGz     *grpc.ClientConn
-	clientGz grpc_testing.TestServiceClient
-	tick     chan struct{}
-	parked   chan struct{}
+	a, b       *c16Backend
+	proxy      *grpc.Server
+	addr       string
+	cc         *grpc.ClientConn
+	client     grpc_testing.TestServiceClient
+	ccGz       *grpc.ClientConn
+	clientGz   grpc_testing.TestServiceClient
+	ccAuth     *grpc.ClientConn
+	clientAuth grpc_testing.TestServiceClient
+	tick       chan struct{}
+	parked     chan struct{}
 	// controlled: the harness owns the ticks of the pool's clean-up loop
 	controlled bool
 }
@@ -278,6 +280,7 @@ func newC16Rig() *c16Rig {
 	cfg.Proxy.Strategy, cfg.Proxy.Matcher, cfg.GlobCacheSize = "rr", "prefix", 10
 	cfg.Proxy.GRPCMaxRxMsgSize, cfg.Proxy.GRPCMaxTxMsgSize = 16<<20, 16<<20
 	cfg.Proxy.GRPCGShutdownTimeout = 20 * time.Millisecond
+	cfg.Proxy.IdleConnTimeout = 50 * time.Millisecond // an option of the HTTP transports; whatever the gRPC pool makes of it, calls in flight are not idle
 	p := metrics.DiscardProvider{}
 	stats := &proxy.GrpcStatsHandler{Connect: p.NewCounter("c"), Request: p.NewHistogram("r"), NoRoute: p.NewCounter("n"), Status: p.NewHistogram("s", "code")}
 	r.proxy = grpc.NewServer(newGrpcProxy(cfg, &tls.Config{}, stats)...)
@@ -307,6 +310,14 @@ func newC16Rig() *c16Rig {
 		panic(err)
 	}
 	r.clientGz = grpc_testing.NewTestServiceClient(r.ccGz)
+	// a caller that reaches fabio under a name (its :authority) for which the table has a host route: without dsthost
+	// metadata the host-less routes decide all the same
+	r.ccAuth, err = grpc.NewClient(r.addr, grpc.WithTransportCredentials(insecure.NewCredentials()), grpc.WithAuthority("grpc.example"),
+		grpc.WithDefaultCallOptions(grpc.MaxCallRecvMsgSize(16<<20), grpc.MaxCallSendMsgSize(16<<20)))
+	if err != nil {
+		panic(err)
+	}
+	r.clientAuth = grpc_testing.NewTestServiceClient(r.ccAuth)
 	return r
 }
 
@@ -334,6 +345,7 @@ type c16Call struct {
 	md      metadata.MD
 	timeout time.Duration
 	gz      bool // the caller compresses its messages (grpc-encoding: gzip)
+	auth    bool // the caller dialled fabio as grpc.example (the host of svcB's route)
 }
 
 type c16Result struct {
@@ -354,6 +366,9 @@ func (r *c16Rig) call(c c16Call) c16Result {
 	cl := r.client
 	if c.gz {
 		cl = r.clientGz
+	}
+	if c.auth {
+		cl = r.clientAuth
 	}
 	var res c16Result
 	var err error
@@ -485,7 +500,7 @@ func c16Payload(n int, seed byte) []byte {
 
 func TestVerifC16Calls(t *testing.T) {
 	L := ev.Begin("C16", "c16-calls", "exploration",
-		"real stack: grpc.Server with fabio's options (main.newGrpcProxy: codec, transparent handler with GetGRPCDirector, stream interceptor) in front of two instrumented grpc_testing.TestService backends on loopback. call kind {unary, client-stream, server-stream, bidi} x request message sequences of <=3 payloads from {empty, 1B, 70kB} x reply sequences likewise x metadata {none, custom pair, binary -bin key, dsthost matching / not matching / twice, names without x- incl. non-reserved grpc-* keys} x backend outcome {OK, NotFound 'x', Internal, custom code 42, ResourceExhausted with format verbs, Unavailable} x with/without headers and trailers x every fourth call from a caller that gzip-compresses its messages (per-connection compressor, nothing registered process-wide); oracle: identity on messages, custom metadata, trailers, status code and message, headers when >=1 message was sent; no matching route -> NotFound and no backend contacted. non-trivial = every call")
+		"real stack: grpc.Server with fabio's options (main.newGrpcProxy: codec, transparent handler with GetGRPCDirector, stream interceptor) in front of two instrumented grpc_testing.TestService backends on loopback. call kind {unary, client-stream, server-stream, bidi} x request message sequences of <=3 payloads from {empty, 1B, 70kB} x reply sequences likewise x metadata {none, custom pair, binary -bin key, dsthost matching / not matching / twice, names without x- incl. non-reserved grpc-* keys} x backend outcome {OK, NotFound 'x', Internal, custom code 42, ResourceExhausted with format verbs, Unavailable} x with/without headers and trailers x every fourth call from a caller that gzip-compresses its messages (per-connection compressor, nothing registered process-wide) x every seventh call from a caller whose :authority is the host of svcB's route; oracle: identity on messages, custom metadata, trailers, status code and message, headers when >=1 message was sent; no matching route -> NotFound and no backend contacted. non-trivial = every call")
 	r := newC16Rig()
 	host := "grpc.example"
 	table := fmt.Sprintf("route add svcA /grpc.testing.TestService grpc://%s opts \"proto=grpc\"\nroute add svcB %s/grpc.testing.TestService grpc://%s opts \"proto=grpc\"\n", r.a.addr, host, r.b.addr)
@@ -562,10 +577,12 @@ func TestVerifC16Calls(t *testing.T) {
 							}
 							// every fourth case comes from a caller that compresses its messages
 							gz := n%4 == 0
-							res := r.call(c16Call{kind: k, reqs: q, md: m.md, gz: gz})
+							// every seventh one comes from a caller that dialled fabio under the host name of svcB's route
+							viaName := n%7 == 3 && !gz
+							res := r.call(c16Call{kind: k, reqs: q, md: m.md, gz: gz, auth: viaName})
 							L.Case()
 							L.NontrivialKey(fmt.Sprint(k, qi, pi, mi, oi, ht))
-							d := map[string]interface{}{"caller_compresses_with_gzip": gz, "call": k, "requests": c16Bytes(q), "replies": c16Bytes(p), "metadata": m.name, "backend_status": fmt.Sprintf("%d %q", o.code, o.msg), "got_status": fmt.Sprintf("%d %q", res.code, res.msg)}
+							d := map[string]interface{}{"caller_compresses_with_gzip": gz, "caller_dialled_fabio_as_grpc.example": viaName, "call": k, "requests": c16Bytes(q), "replies": c16Bytes(p), "metadata": m.name, "backend_status": fmt.Sprintf("%d %q", o.code, o.msg), "got_status": fmt.Sprintf("%d %q", res.code, res.msg)}
 							if n%97 == 0 {
 								L.Sample(d)
 							}
@@ -650,7 +667,7 @@ func TestVerifC16Calls(t *testing.T) {
 // connection reuse and clean-up across table changes (explicit-state BFS)
 func c16History(r *c16Rig) {
 	L := ev.Begin("C16", "c16-history", "model_checking",
-		"explicit-state BFS on the same real stack: state = (backend B in the table?, pooled connection to A?, to B?); events: call routed to A, call routed to B (dsthost), remove / re-add backend B in the table, one pass of the pool's clean-up loop (its time.Sleep is owned by the harness), backend B restart, backend B redeployed on the same address with the other transport (grpc:// <-> grpcs://, table follows); plus one outage scenario (B down while 4 calls arrive, then back: one connection); invariants: a call to a routed backend succeeds, one to an unrouted backend gets NotFound without contacting it; at most one connection per backend while it stays routed and up (accept counter at the backend); after B left the table and a clean-up pass its connection is closed; a call after re-adding B succeeds. non-trivial = transition that changes the table or needs a (re)connect")
+		"explicit-state BFS on the same real stack: state = (backend B in the table?, pooled connection to A?, to B?); events: call routed to A, call routed to B (dsthost), remove / re-add backend B in the table, one pass of the pool's clean-up loop (its time.Sleep is owned by the harness), backend B restart, backend B redeployed on the same address with the other transport (grpc:// <-> grpcs://, table follows); plus one outage scenario (B down while 4 calls arrive, then back: one connection) and one long bidi stream over two clean-up passes; invariants: a call to a routed backend succeeds, one to an unrouted backend gets NotFound without contacting it; at most one connection per backend while it stays routed and up (accept counter at the backend); after B left the table and a clean-up pass its connection is closed; a call after re-adding B succeeds. non-trivial = transition that changes the table or needs a (re)connect")
 	host := "grpc.example"
 	both := func() string {
 		if r.b.tls {
@@ -864,6 +881,46 @@ func c16History(r *c16Rig) {
 			L.Violation("connection-not-reused-per-backend/backend-outage", d)
 		}
 		L.Sample(d)
+	}
+	// a stream that stays open while the pool's clean-up loop makes its passes and no other call uses the backend
+	// (proxy.idleconntimeout is 50ms in this rig: a connection with a call in flight is not an idle one)
+	{
+		r.setTable(both())
+		r.a.mu.Lock()
+		r.a.script, r.a.calls = c16Script{replies: [][]byte{{7}}}, nil
+		r.a.mu.Unlock()
+		L.Case()
+		L.NontrivialKey("long-stream")
+		d := map[string]interface{}{"scenario": "bidi stream to A: message, 150ms, clean-up pass, 150ms, clean-up pass, message, close; no other call meanwhile"}
+		ctx, cancel := context.WithTimeout(context.Background(), 30*time.Second)
+		st, err := r.client.FullDuplexCall(ctx)
+		ok := err == nil
+		if ok {
+			ok = st.Send(&grpc_testing.StreamingOutputCallRequest{Payload: &grpc_testing.Payload{Body: []byte{1}}}) == nil
+		}
+		for i := 0; ok && i < 2; i++ {
+			time.Sleep(150 * time.Millisecond) // a stimulus (lets the connection look old), not an oracle
+			r.cleanupPass()
+		}
+		time.Sleep(100 * time.Millisecond) // more than the pool's grace period of 20ms
+		var got [][]byte
+		if ok {
+			err = st.Send(&grpc_testing.StreamingOutputCallRequest{Payload: &grpc_testing.Payload{Body: []byte{2}}})
+			st.CloseSend()
+			for err == nil {
+				var m *grpc_testing.StreamingOutputCallResponse
+				m, err = st.Recv()
+				if err == nil {
+					got = append(got, m.GetPayload().GetBody())
+				}
+			}
+		}
+		cancel()
+		d["stream_ended_with"], d["replies"] = fmt.Sprint(err), c16Bytes(got)
+		L.Sample(d)
+		if err != io.EOF || c16Bytes(got) != c16Bytes([][]byte{{7}}) {
+			L.Violation("stream-cut-while-the-backend-stays-in-the-table", d)
+		}
 	}
 	L.Set("cleanup_loop_controlled_by_harness", r.controlled)
 	L.AddStates(int64(len(states)))
